@@ -188,3 +188,38 @@ func renderLayout(layout string, t time.Time) (string, bool) {
 	}
 	return "", false
 }
+
+// zoneTransitions: the instants (unix seconds) between 1900 and 2038 at which the
+// UTC offset of a zone changes, found by scanning Go's own zone data. Used only
+// to aim operations at the interesting days; it is not part of any oracle.
+var transitionCache = map[string][]int64{}
+
+func zoneTransitions(loc *time.Location) []int64 {
+	key := loc.String()
+	if t, ok := transitionCache[key]; ok {
+		return t
+	}
+	var out []int64
+	const step = 6 * 3600
+	start := int64(-2208988800) // 1900-01-01
+	end := int64(2145916800)    // 2038-01-01
+	prev := offsetAt(start, loc)
+	for u := start + step; u <= end; u += step {
+		o := offsetAt(u, loc)
+		if o != prev {
+			lo, hi := u-step, u
+			for hi-lo > 1 {
+				mid := lo + (hi-lo)/2
+				if offsetAt(mid, loc) == prev {
+					lo = mid
+				} else {
+					hi = mid
+				}
+			}
+			out = append(out, hi)
+			prev = o
+		}
+	}
+	transitionCache[key] = out
+	return out
+}
